@@ -11,6 +11,9 @@ def main(tier, seed):
     # restart of a finite-difference run: the checkpoint's counters differ (nfev counts the stencil points too)
     extra.append(dict(maxiter=2, maxfun=12, maxls=1, ftol="sym", ls_mode="lean", jac_mode="2-point", checkpoint=1, ck_nit=1, ck_nfev=5, ck_njev=2, ck_pairs=1, groups=["C05"]))
     extra.append(dict(maxiter=2, maxfun=8, maxls=1, ftol="sym", ls_mode="lean", checkpoint=1, ck_nit=1, ck_nfev=5, ck_njev=3, ck_pairs=1, groups=["C05"]))
+    # user callables that scribble over the array they receive (they are documented to get a copy)
+    extra.append(dict(maxiter=1, maxfun=4, maxls=2, ftol="sym", ls_mode="contract", ls_tmax=2, mutate_args=1, callback_kind="choose", groups=["C05"]))
+    extra.append(dict(maxiter=1, maxfun=6, maxls=1, ftol="sym", ls_mode="lean", jac_mode="2-point", mutate_args=1, groups=["C05"]))
     chk = orch_common.run("C05", tier, seed, extra_jobs=extra, technique="DSE of the real main.py/scalar_function.py/bfgsmats.py with contract stubs for the kernels and uninterpreted user callables; z3 per path; scenario replay on the real API")
     chk.sample(dict(config=dict(maxiter="0..1", maxfun="1..3", maxls="1..2", ftol="symbolic >= 0", gtol="symbolic >= 0", ftarget="none|float|callable", callback="returns a symbolic Boolean"),
                     obligations="C05.* (see harness/orch_single.py)"))
